@@ -64,9 +64,17 @@ def run(res, tier, lean, prop="C01", proof_breaks=(), build_log=""):
                 res.violation("native observer violates C07: the watched root (given with a trailing separator) was removed but its "
                               f"emitter did not stop; delivered: {result['line']}",
                               {"root": "W/", "recursive": recursive, "delivered": result["line"]}, signature="c07-root-trailing-sep")
-    for init, ops in hists:
+    n_fixed = len(pipe.FIXED) + 4
+    configs = []
+    for hi, (init, ops) in enumerate(hists):
         for recursive in (True, False):
-            full = r.random() < 0.25
+            # the fixed histories run under a recursive watch with BOTH emitters (normal and generate_full_events: the
+            # departure of a directory is then reported by another branch of queue_events), the others draw one
+            fulls = (False, True) if (hi < n_fixed and recursive) else (r.random() < 0.25,)
+            for full in fulls:
+                configs.append((init, ops, recursive, full))
+    for init, ops, recursive, full in configs:
+        if True:
             as_bytes = r.random() < 0.25
             # how the kernel buffer is split between reads: per operation, the whole batch at once or one record per read
             mode = r.random()
